@@ -46,7 +46,7 @@ def run_machine_batch(mname, tier, seed, runs, workers, wall, digest_sample):
     want = set(indices[:: max(1, runs // max(1, digest_sample))][:digest_sample]) if digest_sample else set()
     deadline = time.time() + wall if wall else None
     chunk = max(1, min(64, runs // (workers * 8) or 1))
-    tasks = [(mname, tier, seed, c, want, deadline) for c in _chunks(indices, chunk)]
+    pending = list(_chunks(indices, chunk))
     total = {
         "evaluations": 0,
         "steps": 0,
@@ -60,32 +60,85 @@ def run_machine_batch(mname, tier, seed, runs, workers, wall, digest_sample):
         "harness_errors": [],
         "samples": [],
         "skipped": 0,
+        "timeouts": [],
     }
+
+    def merge(agg):
+        total["evaluations"] += agg["evaluations"]
+        total["steps"] += agg["steps"]
+        total["stats"].update(agg["stats"])
+        total["sketches"] |= agg["sketches"]
+        total["transitions"] |= agg["transitions"]
+        total["violations"].extend(agg["violations"])
+        total["digests"].update(agg["digests"])
+        total["maxdiff"] = max(total["maxdiff"], agg["maxdiff"])
+        for rk, rv in agg["maxdiff_by"].items():
+            total["maxdiff_by"][rk] = max(total["maxdiff_by"].get(rk, 0.0), rv)
+        total["harness_errors"].extend(agg["harness_errors"])
+        if len(total["samples"]) < 3:
+            total["samples"].extend(agg["samples"])
+        total["skipped"] += agg["skipped"]
+
     if workers <= 1:
-        results = map(core.run_chunk, tasks)
-        pool = None
-    else:
-        pool = _pool(workers)
-        results = pool.map(core.run_chunk, tasks)
+        for c in pending:
+            merge(core.run_chunk((mname, tier, seed, c, want, deadline)))
+        return machine, total
+
+    import shutil
+    import tempfile
+    from concurrent.futures import as_completed
+    from concurrent.futures.process import BrokenProcessPool
+
+    progress_dir = tempfile.mkdtemp(prefix="vsim_progress_")
     try:
-        for agg in results:
-            total["evaluations"] += agg["evaluations"]
-            total["steps"] += agg["steps"]
-            total["stats"].update(agg["stats"])
-            total["sketches"] |= agg["sketches"]
-            total["transitions"] |= agg["transitions"]
-            total["violations"].extend(agg["violations"])
-            total["digests"].update(agg["digests"])
-            total["maxdiff"] = max(total["maxdiff"], agg["maxdiff"])
-            for rk, rv in agg["maxdiff_by"].items():
-                total["maxdiff_by"][rk] = max(total["maxdiff_by"].get(rk, 0.0), rv)
-            total["harness_errors"].extend(agg["harness_errors"])
-            if len(total["samples"]) < 3:
-                total["samples"].extend(agg["samples"])
-            total["skipped"] += agg["skipped"]
+        rounds = 0
+        while pending:
+            rounds += 1
+            pool = _pool(workers)
+            futs = {}
+            for j, c in enumerate(pending):
+                pf = os.path.join(progress_dir, "r%d_c%d" % (rounds, j))
+                futs[pool.submit(core.run_chunk, (mname, tier, seed, c, want, deadline, pf))] = (c, pf)
+            not_done = []
+            try:
+                for f in as_completed(futs):
+                    c, pf = futs[f]
+                    try:
+                        merge(f.result())
+                    except BrokenProcessPool:
+                        not_done.append((c, pf))
+            finally:
+                pool.shutdown(wait=True, cancel_futures=True)
+            pending = []
+            suspects = []
+            for c, pf in not_done:
+                cur = None
+                try:
+                    with open(pf) as fh:
+                        txt = fh.read().strip()
+                    cur = int(txt) if txt not in ("", "done") else None
+                except (OSError, ValueError):
+                    cur = None
+                rest = [i for i in c if i != cur]
+                if cur is not None:
+                    suspects.append(cur)
+                if rest:
+                    pending.append(rest)
+            # every history that was in flight when the pool broke runs once more, alone in a one-worker pool: the one that
+            # ends its worker again is the history over the wall limit (or crashing natively) - abandoned, counted, never judged
+            for cur in suspects:
+                one = _pool(1)
+                try:
+                    merge(one.submit(core.run_chunk, (mname, tier, seed, [cur], want, deadline)).result())
+                except BrokenProcessPool:
+                    total["timeouts"].append(cur)
+                    total["stats"]["skipped:history_abandoned_worker_died"] += 1
+                finally:
+                    one.shutdown(wait=True, cancel_futures=True)
+            if rounds > 50:
+                raise core.HarnessError("worker processes keep dying: %d chunks still pending" % len(pending))
     finally:
-        if pool is not None:
-            pool.shutdown(wait=True, cancel_futures=True)
+        shutil.rmtree(progress_dir, ignore_errors=True)
     return machine, total
 
 
@@ -181,6 +234,8 @@ def cmd_check(args):
         dsample = budget.get("digest_sample", 24)
         tm = time.time()
         machine, tot = run_machine_batch(mname, tier, seed, runs, workers, wall, dsample)
+        if tot.get("timeouts"):
+            print("ABANDONED machine=%s histories=%s (their worker process ended: over the %ds per-history wall limit, or a native crash; counted, not judged)" % (mname, sorted(tot["timeouts"])[:20], int(core.HISTORY_WALL_LIMIT)))
         elapsed = time.time() - tm
 
         # ---- harness errors: never a pass, never a violation
@@ -270,6 +325,7 @@ def cmd_check(args):
                 "machine": mname,
                 "evaluations": tot["evaluations"],
                 "not_run_wall_cap": tot["skipped"],
+                "abandoned_over_history_wall_limit": sorted(tot.get("timeouts", []))[:50],
                 "sim_steps": tot["steps"],
                 "distinct_nontrivial_histories": len(tot["sketches"]),
                 "distinct_abstract_transitions": len(tot["transitions"]),
